@@ -55,6 +55,8 @@ func c19(c *Ctx) {
 	c19ToAddr(c)
 	c19Run(c)
 	c19RangedListUntouched(c)
+	// a datagram is looked up under the local address of the socket it arrived on (shared with C08)
+	c08ListenerOwnVariables(c)
 	c19ServiceEntriesComplete(c)
 	// "a connection to a listened port can reach only the services listed for that entry"
 	if find := c.P.Method("server", "Honeytrap", "findService"); c.Anchor(find != nil, "entry-services-only", "(*server.Honeytrap).findService") {
@@ -1055,6 +1057,46 @@ func c19ServiceEntriesComplete(c *Ctx) {
 						// built by a helper: every result of it must be complete – not followed here
 						if cl, isC := lf.(*ssa.Call); isC && cl.Call.StaticCallee() != nil && InRepo(cl.Call.StaticCallee()) {
 							good = true
+						}
+						// (entry, error) from a helper: each non-nil entry it returns has its Service set before the return
+						if ex, isE := lf.(*ssa.Extract); isE {
+							if cl, isC := ex.Tuple.(*ssa.Call); isC && cl.Call.StaticCallee() != nil && InRepo(cl.Call.StaticCallee()) && cl.Call.StaticCallee().Blocks != nil {
+								h := cl.Call.StaticCallee()
+								all, some := true, false
+								for _, r := range Returns(h) {
+									vals := RetVals(r)
+									if ex.Index >= len(vals) {
+										all = false
+										continue
+									}
+									for _, hl := range leaves(vals[ex.Index]) {
+										if IsNilConst(hl) {
+											continue
+										}
+										ha, isHA := hl.(*ssa.Alloc)
+										set := false
+										if isHA && ha.Referrers() != nil {
+											for _, ref := range *ha.Referrers() {
+												if fa, isFA := ref.(*ssa.FieldAddr); isFA && fieldNameOf(fa) == "Service" && fa.Referrers() != nil {
+													for _, r2 := range *fa.Referrers() {
+														if st, isSt := r2.(*ssa.Store); isSt && st.Addr == ssa.Value(fa) && before(st, r) {
+															set = true
+														}
+													}
+												}
+											}
+										}
+										if set {
+											some = true
+										} else {
+											all = false
+										}
+									}
+								}
+								if all && some {
+									good = true
+								}
+							}
 						}
 						continue
 					}
